@@ -1,6 +1,9 @@
 //! E-pool: runs one scenario against the real `ThreadPool` and prints the visible event log.
 //!
-//! case:   <n>;<drop>;<pace>;<job>,<job>,...
+//! case:   <n>;<drop>;<pace>;<job>,<job>,...[;u]
+//!   ;u     the pool is not dropped by `drop(pool)` but by the UNWINDING of its owner: after the last submission the
+//!          owner thread panics (as main_loop does on a malformed message) and the pool goes out of scope while
+//!          `thread::panicking()`; D is logged just before the panic, E once the unwinding has dropped the pool
 //!   n      pool size (ThreadPool::new(n, ..))
 //!   drop   number of jobs submitted before the pool is dropped (jobs after that are not submitted)
 //!   pace   0 = submit back to back; k > 0 = seed of a small LCG that inserts yields / spins /
@@ -95,6 +98,9 @@ thread_local! {
     static EXIT_GUARD: RefCell<Option<ExitGuard>> = RefCell::new(None);
 }
 
+/// panic payload of the owner thread in the `;u` scenarios
+struct UnwindDrop;
+
 #[derive(Clone)]
 enum Kind { Instant, Sleep(u64), Meet(Arc<Rendezvous>), Panic }
 
@@ -132,11 +138,12 @@ fn parse_jobs(s: &str) -> Vec<Kind> {
 }
 
 pub fn run_case(line: &str) -> String {
-    let mut it = line.splitn(4, ';');
+    let mut it = line.splitn(5, ';');
     let n: usize = it.next().unwrap().parse().unwrap();
     let drop_at: usize = it.next().unwrap().parse().unwrap();
     let pace: u64 = it.next().unwrap().parse().unwrap();
     let jobs = parse_jobs(it.next().unwrap_or(""));
+    let unwind = it.next() == Some("u");
     let watchdog = env_ms("VPOOL_WATCHDOG_MS", 15000);
     let meet_timeout = env_ms("VPOOL_MEET_MS", 8000);
 
@@ -184,11 +191,21 @@ pub fn run_case(line: &str) -> String {
                 if id % 2 == 0 { pool.execute(body); } else { pool.execute_req(body, lsp_server::RequestId::from(id as i32)); }
             }
             log_s.lock().unwrap().events.push("D".to_string());
+            if unwind { std::panic::panic_any(UnwindDrop); }
             drop(pool);
             let mut l = log_s.lock().unwrap();
             l.events.push("E".to_string());
             (exited_s.load(Ordering::SeqCst), l.tids.len())
         }));
+        let r = match r {
+            Err(e) if e.is::<UnwindDrop>() => {
+                // the unwinding has dropped the pool: this is the point where `drop` has returned
+                let mut l = log_s.lock().unwrap_or_else(|p| p.into_inner());
+                l.events.push("E".to_string());
+                Ok((exited_s.load(Ordering::SeqCst), l.tids.len()))
+            }
+            other => other,
+        };
         let _ = done_tx.send(r.map_err(|e| {
             if let Some(s) = e.downcast_ref::<&str>() { s.to_string() }
             else if let Some(s) = e.downcast_ref::<String>() { s.clone() }
